@@ -26,7 +26,7 @@ Sels == {All, AncStar(D, {5}), AncStar(D, {6}), AncStar(D, {3}), AncStar(D, {2})
 
 VARIABLES res, cnt, ex, cache, ops, lastRun
 vars == <<res, cnt, ex, cache, ops, lastRun>>
-NoEx == [inst |-> 0, S |-> {}, started |-> FALSE, fc |-> 0, f |-> 0]
+NoEx == [inst |-> 0, S |-> {}, started |-> FALSE, fc |-> 0, f |-> 0, gen |-> 0]     \* gen: which object lives in the slot
 
 Init == /\ res = [i \in 1..NI |-> IF i = 1 THEN {} ELSE {0}]      \* {0}: the instance does not exist yet
         /\ cnt = [i \in 1..NI |-> [k \in All |-> 0]]
@@ -49,7 +49,7 @@ SetupOp(i, T) == Tick /\ Exists(i) /\ Execute(i, SetupClosure(D, None, None, T),
 Copy(i, j) == Tick /\ Exists(i) /\ ~Exists(j) /\ res' = [res EXCEPT ![j] = res[i]] /\ cnt' = [cnt EXCEPT ![j] = cnt[i]]
               /\ lastRun' = {} /\ UNCHANGED <<ex, cache>>
 ExNew(x, i, S, f, fc) == /\ Tick /\ Exists(i) /\ (IF fc = 0 THEN TRUE ELSE cache[fc] # {0})
-                         /\ ex' = [ex EXCEPT ![x] = [inst |-> i, S |-> S, started |-> FALSE, fc |-> fc, f |-> f]]
+                         /\ ex' = [ex EXCEPT ![x] = [inst |-> i, S |-> S, started |-> FALSE, fc |-> fc, f |-> f, gen |-> ex[x].gen + 1]]
                          /\ lastRun' = {} /\ UNCHANGED <<res, cnt, cache>>
 ExRun(x, ok) ==
   /\ Tick /\ ex[x].inst # 0
@@ -74,8 +74,6 @@ SetupOnce == \A i \in 1..NI : \A k \in Setups : cnt[i][k] <= 1
 StoredIsSetup == \A i \in 1..NI : Exists(i) => res[i] \subseteq Setups
 (* C15 / C18: no execution runs a node whose result it already holds *)
 NoRecompute == \A i \in 1..NI : Exists(i) => lastRun \cap res[i] \subseteq lastRun \cap Setups
-(* C15: an executor object executes at most once: after it was started, running it again executes nothing *)
-SingleUse == [][\A x \in 1..NX : (ex[x].started /\ ex'[x] = ex[x] /\ ops' = ops + 1 /\ res' = res /\ cache' = cache /\ cnt' = cnt)
-                                   => TRUE]_vars
-StartedStays == [][\A x \in 1..NX : (ex[x].started /\ ex'[x].inst = ex[x].inst /\ ex'[x].S = ex[x].S /\ ex'[x].fc = ex[x].fc /\ ex'[x].f = ex[x].f) => ex'[x].started]_vars
+(* C15: an executor object executes at most once: once started it stays started (only a NEW executor is unstarted) *)
+StartedStays == [][\A x \in 1..NX : (ex[x].started /\ ex'[x].gen = ex[x].gen) => ex'[x].started]_vars
 =============================================================================
